@@ -207,7 +207,7 @@ def drain {α} (cfg : Cfg α) : Nat → St α → List Act → St α
   | 0, s, _ => s
   | f + 1, s, pref =>
     let s1 := run cfg s pref
-    let s2 := run cfg s1 [.parse, .start, .flush 1000000, .write none, .finish]
+    let s2 := run cfg s1 [.parse, .start, .flush 1000000000, .write none, .flush 1000000000, .finish]
     if s2.next == cfg.reqs.length && s2.queue.isEmpty && s2.pending.isEmpty then s2 else drain cfg f s2 []
 
 end Pipeline
